@@ -542,6 +542,13 @@ def merge_sequences(sequences):
   for seq in sequences:
     cat_seq.MergeFrom(seq)
 
+  # MergeFrom keeps the scalar fields of the last sequence only. The merged
+  # sequence lasts as long as the longest of its inputs.
+  if sequences:
+    cat_seq.total_time = max(seq.total_time for seq in sequences)
+    cat_seq.total_quantized_steps = max(
+        seq.total_quantized_steps for seq in sequences)
+
   # Delete subsequence_info because we've joined several subsequences.
   cat_seq.ClearField('subsequence_info')
   return remove_redundant_data(cat_seq)
